@@ -117,14 +117,19 @@ def run(tier, seed):
     sample = []
     for c in cases[:2]:
         sample.append({'program': c['p'].name, 'args': c['p'].args, 'source': c['p'].src, 'symbols': c['syms'], 'max_input_length': c['maxlen']})
+    # C stage: bind the emitted C of some of the accepted programs to the machines judged above (every state x every byte)
+    from props import c06
+    sel = [p for i, (p, a) in enumerate(pairs) if i % (5 if quick else 8) == 0]
+    cst = c06.c_stage(chk, sel, rng, nctx=2, label='program') if sel else {'states': 0, 'transitions': 0, 'sweeps': 0, 'accepted': 0, 'binaries': 0}
     chk.coverage = {
-        'states': st['states'], 'transitions': st['transitions'], 'traces_validated_against_impl': len(pairs),
+        'states': st['states'] + cst['states'], 'transitions': st['transitions'] + cst['transitions'], 'traces_validated_against_impl': len(pairs) + cst['accepted'],
+        'binaries_swept': cst['binaries'], 'single_step_sweeps': cst['sweeps'],
         'samples': sample, 'programs_accepted': len(pairs), 'programs_generated': len(items),
         'report_kinds': dict(kinds), 'exhaustive': False,
         'rule': 'product search of (machine state, data, set of Lang configurations) over one representative per symbol cell, inputs up to the per-program length bound (search closes earlier when the product is finite)',
     }
     chk.assumptions = ['open points OP1-OP8 of DESIGN.md section 8 are admitted by the oracle', 'data effects of actions reuse the machine specification\'s action semantics (decided separately by C14/C15)',
-                       'the emitted C executes the exported machine (C06)']
+                       'the emitted C executes the exported machine: swept here for every fifth accepted program, decided in general by C06']
     return chk.finish()
 
 
